@@ -7,7 +7,7 @@ CONSTANTS
   MaxPersist = 0
   PersistNames = {"x01"}
   PersistFlags = {"on"}
-  PersistPreset = "wide"
+  PersistPreset = "all"
   DefaultSet = {FALSE, TRUE}
   PreSet = {"none", "ig_off", "pr_on"}
   FileDeny = {}
